@@ -12,6 +12,14 @@ fn main() {
         "C05" => main_for::<props::client::C05>(rest),
         "C06" => main_for::<props::client::C06>(rest),
         "C14" => main_for::<props::client::C14>(rest),
+        "C01" => main_for::<props::e2e::C01>(rest),
+        "C12" => main_for::<props::poller::C12>(rest),
+        "C13" => main_for::<props::poller::C13>(rest),
+        "C15" => main_for::<props::process::C15>(rest),
+        "C15-CHILD" => props::process::c15_child(rest.first().map(|s| s.as_str()).unwrap_or("")),
+        "C16" => main_for::<props::files::C16>(rest),
+        "C17" => main_for::<props::files::C17>(rest),
+        "C19" => main_for::<props::process::C19>(rest),
         "C02" => main_for::<props::shm::C02>(rest),
         "C03" => main_for::<props::shm::C03>(rest),
         "C04" => main_for::<props::shm::C04>(rest),
